@@ -3,6 +3,7 @@ package props
 import (
 	"bytes"
 	"fmt"
+	"io"
 	"os"
 	"path/filepath"
 	"runtime"
@@ -33,6 +34,12 @@ type c13Step struct {
 type c13Tree struct {
 	nodes  []*gtree.Node
 	mnodes []*model.T
+	iters  []c13Iter // iterators created earlier and not yet ranged over
+}
+
+type c13Iter struct {
+	seq    func(func(*gtree.WalkerNode, error) bool)
+	branch *model.Branch
 }
 
 type c13Machine struct {
@@ -163,6 +170,77 @@ func (m *c13Machine) run(s c13Step) string {
 	opt := ops.Opts{Branch: s.Branch}
 	m.ops++
 	m.last = &s
+	validNames := mf.AllNames(model.ValidElem)
+	switch s.Kind {
+	case "itercreate":
+		// creating the iterator is not the operation; ranging over it later is
+		t.iters = append(t.iters, c13Iter{seq: gtree.WalkIterFromRoot(root, opt.Options(nil, "")...), branch: s.Branch})
+		m.last = nil
+		return ""
+	case "iterrange":
+		if len(t.iters) == 0 {
+			m.last = nil
+			return ""
+		}
+		it := t.iters[0]
+		t.iters = t.iters[1:]
+		var rows []string
+		for wn, err := range it.seq {
+			if err != nil {
+				return "ranging over an iterator created earlier: " + err.Error()
+			}
+			rows = append(rows, wn.Row()+"|"+wn.Path())
+		}
+		_, facts := model.Render(mf, branchOrDefault(it.branch))
+		var want []string
+		for _, f := range facts {
+			p := f.Path
+			if !validNames {
+				p = ""
+			}
+			want = append(want, f.Row+"|"+p)
+		}
+		if !validNames {
+			for i := range rows {
+				rows[i] = rows[i][:strings.LastIndex(rows[i], "|")+1]
+			}
+		}
+		m.lastOut = strings.Join(rows, "\n")
+		m.last = nil
+		if strings.Join(rows, "\n") != strings.Join(want, "\n") {
+			return fmt.Sprintf("ranging over an iterator that was created earlier (tree is now %s): %s", mroot, firstDiff(strings.Join(rows, "\n"), strings.Join(want, "\n")))
+		}
+		return ""
+	}
+	if !validNames {
+		switch s.Kind {
+		case "drymkdir", "mkdir", "verify":
+			// a name that is not a path element: these operations must refuse the tree, whatever happened before
+			var err error
+			colorMu.Lock()
+			old := color.Output
+			color.Output = io.Discard
+			switch s.Kind {
+			case "drymkdir":
+				err = gtree.MkdirFromRoot(root, gtree.WithDryRun())
+			case "mkdir":
+				m.seq++
+				target := filepath.Join(m.dir, fmt.Sprintf("t%d", m.seq))
+				os.MkdirAll(target, 0o755)
+				err = gtree.MkdirFromRoot(root, gtree.WithTargetDir(target))
+				os.RemoveAll(target)
+			case "verify":
+				err = gtree.VerifyFromRoot(root, gtree.WithTargetDir(filepath.Join(m.dir, "nowhere")))
+			}
+			color.Output = old
+			colorMu.Unlock()
+			m.lastOut = "rejected"
+			if err == nil {
+				return fmt.Sprintf("%s accepted tree %s although it has a name that is not a path element", s.Kind, mroot)
+			}
+			return ""
+		}
+	}
 	switch s.Kind {
 	case "output":
 		var buf bytes.Buffer
@@ -202,6 +280,14 @@ func (m *c13Machine) run(s c13Step) string {
 		var want []string
 		for _, f := range facts {
 			want = append(want, f.Row+"|"+f.Path)
+		}
+		if !validNames { // Path is defined for path-element names only
+			for i := range rows {
+				rows[i] = rows[i][:strings.LastIndex(rows[i], "|")]
+			}
+			for i := range want {
+				want[i] = want[i][:strings.LastIndex(want[i], "|")]
+			}
 		}
 		m.lastOut = strings.Join(rows, "\n")
 		if strings.Join(rows, "\n") != strings.Join(want, "\n") {
@@ -276,7 +362,10 @@ func (m *c13Machine) classes() (nontrivial bool, cl []string) {
 	return
 }
 
-var c13Kinds = []string{"output", "output", "json", "walk", "walkiter", "drymkdir", "mkdir", "verify"}
+var c13Kinds = []string{"output", "output", "json", "walk", "walkiter", "drymkdir", "mkdir", "verify", "itercreate", "iterrange", "iterrange"}
+
+// names of the machine: mostly tiny (collisions, merges), sometimes not a path element (legal for output and walk)
+var c13Names = []string{"a", "b", "ab", "ba", "c", "a", "b", "a/b", "..", "x y", "-"}
 
 func TestC13Machine(t *testing.T) {
 	col := coll("C13", "machine")
@@ -300,23 +389,23 @@ func TestC13Machine(t *testing.T) {
 			"add": func(rt *rapid.T) {
 				ti := rapid.IntRange(0, len(m.trees)-1).Draw(rt, "tree")
 				ni := rapid.IntRange(0, len(m.trees[ti].nodes)-1).Draw(rt, "node")
-				step(c13Step{Kind: "add", Tree: ti, Node: ni, Name: sampled(poolTiny).Draw(rt, "name")})
+				step(c13Step{Kind: "add", Tree: ti, Node: ni, Name: sampled(c13Names).Draw(rt, "name")})
 			},
 			"addLast": func(rt *rapid.T) {
 				ti := rapid.IntRange(0, len(m.trees)-1).Draw(rt, "tree")
-				step(c13Step{Kind: "add", Tree: ti, Node: len(m.trees[ti].nodes) - 1, Name: sampled(poolTiny).Draw(rt, "name")})
+				step(c13Step{Kind: "add", Tree: ti, Node: len(m.trees[ti].nodes) - 1, Name: sampled(c13Names).Draw(rt, "name")})
 			},
 			"op": func(rt *rapid.T) {
 				ti := rapid.IntRange(0, len(m.trees)-1).Draw(rt, "tree")
 				k := rapid.SampledFrom(c13Kinds).Draw(rt, "kind")
 				s := c13Step{Kind: k, Tree: ti}
-				if k == "output" || k == "walk" || k == "walkiter" {
+				if k == "output" || k == "walk" || k == "walkiter" || k == "itercreate" {
 					s.Branch = genBranch().Draw(rt, "branch")
 				}
 				step(s)
 			},
 			"markdown": func(rt *rapid.T) {
-				f := genForest(forestParams{maxNodes: 6, maxDepth: 4, names: sampled(poolTiny)}).Draw(rt, "mdforest")
+				f := genForest(forestParams{maxNodes: 6, maxDepth: 4, names: sampled(c13Names)}).Draw(rt, "mdforest")
 				want, _ := model.Render(model.Merge(f), model.DefaultBranch)
 				// a different notation every time (unit, tabs, heading roots ...): calls must not inherit anything
 				step(c13Step{Kind: "markdown", Doc: model.Spell(f, genSpelling(f.HeadingOK()).Draw(rt, "mdspelling")), Want: want})
@@ -424,6 +513,7 @@ func c13Enumerate(t *testing.T, col *collector, maxLen int) {
 type c13Concurrent struct {
 	Histories [][]c13Step `json:"histories"` // one per goroutine, each on its own trees
 	Docs      []string    `json:"docs"`      // independent From-Markdown calls, one goroutine each
+	DryRun    []bool      `json:"dryRun"`    // per document: OutputFromMarkdown with WithDryRun + extension "b" instead of plain text
 	Procs     int         `json:"procs"`
 }
 
@@ -433,9 +523,15 @@ func c13ConcurrentCheck(c c13Concurrent) string {
 		defer runtime.GOMAXPROCS(old)
 	}
 	// expected outputs of the Markdown calls when run alone
+	optsOf := func(i int) ops.Opts {
+		if i < len(c.DryRun) && c.DryRun[i] {
+			return ops.Opts{DryRun: true, Exts: []string{"b"}}
+		}
+		return ops.Opts{}
+	}
 	want := make([]string, len(c.Docs))
 	for i, d := range c.Docs {
-		out, err, pan := outputMD(d, ops.Opts{})
+		out, err, pan := outputMD(d, optsOf(i))
 		if err != nil || pan != "" {
 			return fmt.Sprintf("document %q fails when run alone: %v %s", d, err, pan)
 		}
@@ -471,7 +567,7 @@ func c13ConcurrentCheck(c c13Concurrent) string {
 			defer wg.Done()
 			<-start
 			for rep := 0; rep < 3; rep++ {
-				out, err, pan := outputMD(d, ops.Opts{})
+				out, err, pan := outputMD(d, optsOf(i))
 				if err != nil || pan != "" || out != want[i] {
 					msgs[len(c.Histories)+i] = fmt.Sprintf("concurrent OutputFromMarkdown(%q) gave %q, %v %s; alone it gives %q", d, out, err, pan, want[i])
 					return
@@ -523,10 +619,11 @@ func TestC13Concurrent(t *testing.T) {
 		for i := 0; i < g; i++ {
 			c.Histories = append(c.Histories, genC13History(rt, fmt.Sprintf("g%d", i), rapid.IntRange(3, 25).Draw(rt, "len")))
 		}
-		nd := rapid.IntRange(0, 4).Draw(rt, "docs")
+		nd := rapid.IntRange(0, 6).Draw(rt, "docs")
 		for i := 0; i < nd; i++ {
 			f := genForest(forestParams{maxNodes: 8, maxDepth: 4, names: sampled(poolTiny)}).Draw(rt, "mdforest")
 			c.Docs = append(c.Docs, model.Spell(f, genSpelling(f.HeadingOK()).Draw(rt, "mdspelling")))
+			c.DryRun = append(c.DryRun, rapid.Bool().Draw(rt, "dryrun"))
 		}
 		c.Procs = rapid.SampledFrom([]int{1, 2, 4, 16}).Draw(rt, "procs")
 		col.eval(true, hash64(fmt.Sprint(c)), fmt.Sprintf("concurrent(%d)", g), fmt.Sprintf("gomaxprocs:%d", c.Procs))
